@@ -175,7 +175,7 @@ impl Lane {
         }
         w(
             ws.join("app/Cargo.toml"),
-            "[package]\nname = \"app\"\nversion = \"0.1.0\"\nedition = \"2024\"\n\n[lints.rust.unexpected_cfgs]\nlevel = \"allow\"\ncheck-cfg = [\"cfg(pavex_ide_hint)\"]\n\n[dependencies]\npavex = { path = \"/repo/runtime/pavex\" }\n",
+            "[package]\nname = \"app\"\nversion = \"0.1.0\"\nedition = \"2024\"\n\n[lints.rust.unexpected_cfgs]\nlevel = \"allow\"\ncheck-cfg = [\"cfg(pavex_ide_hint)\"]\n\n[dependencies]\npavex = { path = \"/repo/runtime/pavex\" }\nserde = { version = \"1\", features = [\"derive\"] }\n",
         );
         w(ws.join("app/src/rt.rs"), emit::RT_RS);
         w(ws.join("app/src/main.rs"), emit::MAIN_RS);
